@@ -159,15 +159,14 @@ impl PrimitiveFixedWidthEncode for i64'''),
     ('c15_append_error_dropped', 'C15', 'C15-R1·executor::insert::InsertExecutor', 'src/executor/insert.rs',
      '            txn.append(chunk).await?;', '            let _ = txn.append(chunk).await;'),
     ('c15_spawn_before_deactivate_again', 'C15', 'Builder::spawn·deactivate≺spawn', 'src/executor/mod.rs',
-     '''        let rx = rx.deactivate();
+     [('''        let rx = rx.deactivate();
         let handle''', '''        let handle'''),
-    ('c15_spawn_before_deactivate_again_2', 'C15', 'Builder::spawn·deactivate≺spawn', 'src/executor/mod.rs',
-     '''        StreamSubscriber {
+      ('''        StreamSubscriber {
             rx,
             handle''', '''        let rx = rx.deactivate();
         StreamSubscriber {
             rx,
-            handle'''),
+            handle''')], None),
     # --- C16
     ('c16_no_not_null_check', 'C16', 'INSERT·not-null-enforced', 'src/executor/insert.rs',
      '''            for (col, array) in columns.iter().zip(chunk.arrays()) {
@@ -237,6 +236,41 @@ impl PrimitiveFixedWidthEncode for i64'''),
     }
 
     /// Returns true if scanned table is sorted by primary key.'''),
+    # --- C15-R6
+    ('c15_memory_append_publishes', 'C15', 'memory·append·from', 'src/storage/memory/transaction.rs',
+     '''    async fn append(&mut self, columns: DataChunk) -> StorageResult<()> {
+        self.buffer.push(columns);
+        Ok(())
+    }''', '''    async fn append(&mut self, columns: DataChunk) -> StorageResult<()> {
+        self.table.write().unwrap().append(columns)?;
+        Ok(())
+    }'''),
+    # --- C13-R4
+    ('c13_end_bound_arms_merged', 'C13', 'mask·end·arms', 'src/storage/secondary/rowset/rowset_iterator.rs',
+     '''                    Bound::Included(key) => (0..array.len()).position(|idx| &array.get(idx) > key),
+                    Bound::Excluded(key) => (0..array.len()).position(|idx| &array.get(idx) >= key),
+                    Bound::Unbounded => None,''', '''                    Bound::Included(key) | Bound::Excluded(key) => {
+                        (0..array.len()).position(|idx| &array.get(idx) > key)
+                    }
+                    Bound::Unbounded => None,'''),
+    ('c13_start_bound_not_masked', 'C13', 'mask·start', 'src/storage/secondary/rowset/rowset_iterator.rs',
+     '''                let start_row_id = match &range.start {
+                    Bound::Included(key) => (0..array.len()).position(|idx| &array.get(idx) >= key),
+                    Bound::Excluded(key) => (0..array.len()).position(|idx| &array.get(idx) > key),
+                    Bound::Unbounded => Some(0),
+                }
+                .unwrap_or(len);''', '''                // the iterator was positioned at the start key when it was created
+                let start_row_id = 0;'''),
+    # --- C07-R4
+    ('c07_delete_count_skipped', 'C07', 'C07-R4', 'src/executor/delete.rs',
+     '''            cnt += chunk.cardinality();
+        }
+        txn.commit().await?;''', '''            if chunk.cardinality() == 0 {
+                continue;
+            }
+            cnt += 1;
+        }
+        txn.commit().await?;'''),
 ]
 
 
@@ -247,10 +281,13 @@ def main():
     for name, prop, expect, file, old, new in M:
         p = os.path.join(REPO, file)
         s = open(p).read()
-        if old not in s:
+        pairs = old if isinstance(old, list) else [(old, new)]
+        if any(o not in s for o, _ in pairs):
             print('ANCHOR TEXT NOT FOUND (mutant generator is stale):', name)
             continue
-        open(p, 'w').write(s.replace(old, new, 1))
+        for o, n_ in pairs:
+            s = s.replace(o, n_, 1)
+        open(p, 'w').write(s)
         d = subprocess.run(['git', '-C', REPO, 'diff'], capture_output=True, text=True).stdout
         open(os.path.join(OUT, name + '.diff'), 'w').write(d)
         subprocess.run(['git', '-C', REPO, 'checkout', '--', '.'])
